@@ -277,3 +277,8 @@ Print Assumptions C10_model_rejects_what_the_reference_rejects.
 Print Assumptions C10_model_refines_reference_extended.
 Print Assumptions C10_extended_hypothesis_is_decidable.
 Print Assumptions C10_extended_reference_is_the_reference.
+Example C10_extended_reference_example :
+  (forall r, In r (snd (add_events ex_vals [] cx_D)) -> fst r < 3) /\
+  map pj_ev (fst (fst (ref_x 1 ex_vals (fun _ => None) [] (map slot0 cx_D) []))) = fst (reference ex_vals cx_D) /\
+  map pj_blk (snd (fst (ref_x 1 ex_vals (fun _ => None) [] (map slot0 cx_D) []))) = snd (reference ex_vals cx_D).
+Proof. split; [exact (proj1 (proj2 (proj1 (proj2 (proj2 cx_side))))) | exact cx_walk]. Qed.
